@@ -404,8 +404,8 @@ impl VisitMut for Rewriter {
                         *s = dropped();
                         return;
                     }
-                    if rhs == format!("Arc::clone(&{})", name) || rhs == format!("{}.clone()", name) {
-                        *s = dropped(); // R3
+                    if rhs == format!("Arc::clone(&{})", name) {
+                        *s = dropped(); // R3: an alias of the same Arc (a data `.clone()` is kept: R10)
                         return;
                     }
                     if let Some((kind, args)) = cell_ctor(&init.expr, ty.as_ref()) {
